@@ -2,10 +2,10 @@ package main
 
 import (
 	"fmt"
-	"strings"
 	"go/ast"
 	"go/token"
 	"go/types"
+	"strings"
 )
 
 func init() {
